@@ -34,7 +34,7 @@ META = {
     'evaluation_counters': ['judged_' + m for m in MUTATORS],
     'required_counters': ['judged_' + m for m in MUTATORS] + [
         'model_rejects_and_real_raised', 'bfs_states', 'bfs_transitions', 'random_history_steps',
-        'fresh_equality_checked', 'internal_invariants_checked', 'new_names_appended_in_given_order',
+        'fresh_equality_checked', 'new_names_appended_in_given_order',
         'large_history_steps'],
     'shards': {'quick': 16, 'thorough': 16},
     'exhaustive': {'quick': 'all reachable states over {a,b}x{p,q} (113) x all operation instances over that universe',
